@@ -83,7 +83,10 @@ Inductive op :=
   | Execute (s : nat) (src : source) (prog shots : nat)
                                          (* simulators[s].execute(program, shots).samples *)
   | GlobalDraw (r : req)                 (* the process itself calls random.random() *)
-  | ReprConfig.                          (* repr(config) / repr(simulator): builds Config() *)
+  | ReprConfig                           (* repr(config) / repr(simulator): builds Config() *)
+  | SetSeed (c : nat) (z : Z).           (* configs[c].seed_sequence = z  (the setter, after
+                                            construction): new generators for this object;
+                                            copies taken earlier keep the old ones *)
 
 Fixpoint set_nth {A} (l : list A) (i : nat) (x : A) : list A :=
   match l, i with
@@ -141,6 +144,16 @@ Definition step (v : variant) (use_dask : bool) (w : world) (o : op) : world :=
       let '(w', cfg) := make_config v w None in
       mkW (w_glob w') (w_cells w') (w_cfgs w') (w_sims w' ++ [cfg]) (w_fresh w') (w_out w')
   | ReprConfig => fst (make_config v w None)
+  | SetSeed c z =>
+      match nth_error (w_cfgs w) c with
+      | None => w
+      | Some _ =>
+          let n := length (w_cells w) in
+          mkW (if v_global_py v then fresh_gen Py (Given z) else w_glob w)
+              (w_cells w ++ [fresh_gen Np (Given z); fresh_gen Py (Given z)])
+              (set_nth (w_cfgs w) c (mkCfg (Given z) n (S n)))
+              (w_sims w) (w_fresh w) (w_out w)
+      end
   | GlobalDraw r =>
       mkW (advance (w_glob w) r) (w_cells w) (w_cfgs w) (w_sims w) (w_fresh w) (w_out w)
   | Execute s src prog shots =>
@@ -233,5 +246,6 @@ Definition avoids (c s : nat) (o : op) : Prop :=
   | CopyConfig c' => c' <> c
   | NewSimulator (Some c') => c' <> c
   | Execute s' _ _ _ => s' <> s
+  | SetSeed c' _ => c' <> c
   | _ => True
   end.
